@@ -187,6 +187,7 @@ async def run_case(nworkers, plan_, nids, counters, seed):
         for w in range(1, nworkers):
             storages.append(await rig.make_storage(create_schema=False))
         reset_worker = None
+        early_ids = set()
         logs = []
         for w, st in enumerate(storages):
             lp = free_port()
@@ -218,6 +219,16 @@ async def run_case(nworkers, plan_, nids, counters, seed):
             st.get_event, st.notify_all_connected = make(orig_get, orig_notify, log)
             st.notifier = notifier.NotifyClient(st, port=lp)
             st.notifier.start()
+            # an event accepted before the notifier client is connected: announcing it fails
+            # (no writer yet); that failure must stay without consequences for later events
+            early = ref.make_event(ref.key_from_seed("c20"), kind=1, created_at=gen.T0 - 100 - w, content="early-%d-%d" % (seed, w))
+            early_ids.add(early["id"])
+            try:
+                await st.add_event(early)
+                counters["early_events"] = counters.get("early_events", 0) + 1
+            except Exception as e:
+                viols.append({"key": "early-event-raised", "msg": "add_event raised %r for an event accepted before the notifier connected" % (e,),
+                              "replay": {"workers": nworkers, "plan": list(plan_), "ids": nids, "seed": seed}})
             c = rig.connect("sub%d" % w, storage=st)
             await c.cmd(["REQ", "s", {"kinds": [1], "since": gen.T0 + 1}])
             subs.append(c)
@@ -236,7 +247,12 @@ async def run_case(nworkers, plan_, nids, counters, seed):
                 origin = 0
             ev = ref.make_event(key, kind=1, created_at=gen.T0 + 10 + i, content="n%d-%d" % (seed, i))
             after = reset_worker is not None and links[reset_worker].was_reset
+            n0 = rig.rec.n
             await pubs[origin].cmd(["EVENT", ev])
+            oks = R.ok_frames(pubs[origin], n0)
+            if not oks or oks[-1][1][2] is not True:
+                viols.append({"key": "announcing-worker-refused-event", "msg": "worker %d answered %s to a valid EVENT (after earlier notifier trouble?)" % (origin, oks[-1][1][2:] if oks else None),
+                              "replay": {"workers": nworkers, "plan": list(plan_), "ids": nids, "seed": seed}})
             produced.append((ev["id"], origin, after))
             if not burst or i % 17 == 0:
                 await asyncio.sleep(0.001)
@@ -264,7 +280,7 @@ async def run_case(nworkers, plan_, nids, counters, seed):
             counts = {}
             for g in got:
                 counts[g] = counts.get(g, 0) + 1
-            garbage = [g for g in got if g not in pid]
+            garbage = [g for g in got if g not in pid and g not in early_ids]
             if garbage:
                 viols.append({"key": "corrupted-id/%s" % plan_[0], "msg": "worker %d (plan %s) looked up %d ids that were never announced, e.g. %r (len %d)"
                               % (w, links[w].plan, len(garbage), garbage[0][:70], len(garbage[0])), "replay": rp})
